@@ -154,14 +154,14 @@ Deaggregate(mk, txs) ==
                 kerns |-> [n \in 1..Len(kk) |-> mk.kerns[kk[n]]], off |-> mk.off - tx.off]
 
 \* ---- Block::from_reward, CompactBlock::from, Block::hydrate_from
-BlockOf(txs, rw, prev) ==
-  LET a == Aggregate(txs)
-  IN  IF IsErr(a) THEN Err
+BlockFrom(a, rw, prev) ==     \* a = aggregate(txs)
+      IF IsErr(a) THEN Err
       ELSE LET fees == TB!Fee(a)
            IN  [body |-> [ins |-> a.ins,
                           outs |-> Append(a.outs, [rw.out EXCEPT !.v = TB!Reward + fees]),
                           kerns |-> Append(a.kerns, rw.kern), off |-> 0],
                 total |-> prev + a.off, prev |-> prev]
+BlockOf(txs, rw, prev) == BlockFrom(Aggregate(txs), rw, prev)
 Compact(b) ==
   [total |-> b.total, prev |-> b.prev,
    out_full |-> SelectSeq(b.body.outs, TB!OutCb), kern_full |-> SelectSeq(b.body.kerns, TB!KernCb),
@@ -327,6 +327,23 @@ HydrateIdentity ==
         parts == Parts(plan, Txs)
     IN  /\ BlockEq(Hydrate(Compact(b), parts), b)
         /\ BlockEq(BlockOf(parts, Rewards[lib], PrevOffset), b)
+
+\* OrderGroupingIndependent and HydrateIdentity in one evaluation (each aggregate computed once);
+\* this is what the configurations check at the plan states
+PlanChecks ==
+  AtPlan =>
+    LET all == All
+        ag == Aggregable(Txs)
+        parts == Parts(plan, Txs)
+        pok == \A i \in 1..Len(parts) : ~IsErr(parts[i])
+        e == IF IsLeaf(plan) THEN parts[1] ELSE Aggregate(parts)
+        b == BlockFrom(all, Rewards[lib], PrevOffset)
+    IN  /\ IsErr(e) <=> PlanRefused(plan, Txs)
+        /\ ~IsErr(e) => TxEq(e, all) /\ ToSet(e.outs) \subseteq ToSet(AllOuts(Txs))
+        /\ ~ag => IsErr(e)
+        /\ ConflictFree(Txs) => ~IsErr(e)
+        /\ (ag /\ pok) => /\ BlockEq(Hydrate(Compact(b), parts), b)
+                          /\ BlockEq(BlockFrom(e, Rewards[lib], PrevOffset), b)
 
 \* and that block is a valid block body
 BlockValid ==
